@@ -127,7 +127,9 @@ class SidecarValidator:
         Returns:
             issues(list): A list of issues found with the structure
         """
-        all_validation_issues = []
+        # A top level that is not a JSON object was not loaded; report it with the file context.
+        all_validation_issues = [dict(issue) for issue in sidecar._load_issues]
+        error_handler.add_context_and_filter(all_validation_issues)
         for column_name, dict_for_entry in sidecar.loaded_dict.items():
             error_handler.push_error_context(ErrorContext.SIDECAR_COLUMN_NAME, column_name)
             all_validation_issues += self._validate_column_structure(column_name, dict_for_entry, error_handler)
